@@ -359,6 +359,7 @@ std::ostream& AspifTextOutput::printName(std::ostream& os, Lit_t lit) const {
 void AspifTextOutput::initProgram(bool incremental) {
 	step_ = incremental ? 0 : -1;
 	data_->reset();
+	theory_.reset();
 }
 void AspifTextOutput::beginStep() {
 	if (step_ >= 0) {
